@@ -417,6 +417,9 @@ func (e *emitter) steps(steps []Step) bool {
 
 // loop unrolls the range over the receiver's spine for n elements.
 func (e *emitter) loop(l *LoopRec) bool {
+	if r := e.v.asRange(l); r != nil {
+		l = r
+	}
 	if l.Range == nil || !e.v.isRecvSpine(l.Over) {
 		e.why = "a loop that does not range over the receiver's own spine"
 		return false
